@@ -14,8 +14,10 @@ pub fn programs06() -> Vec<(String, Program, bool)> {
     for (i, o) in [0x0000u16, 0x0001, 0x0200, 0x2FFF, 0x3000, 0x7FFF, 0x8000, 0xFD00, 0xFDF8, 0xFDFD, 0xFE00, 0xFFFE, 0xFFFF].iter().enumerate() {
         let mut p = Program::default();
         p.items.push(Item::Orig(Lit::hex(*o)));
-        p.push(None, Stmt::Add(0, 0, Src2::Imm(Lit::dec(7))));
-        p.push(None, Stmt::Named(0x26, "putn"));
+        // prints its own load address: a source run and an object-file run placed at different
+        // addresses cannot print the same
+        p.push(None, Stmt::Mem(PcRel::Lea, 0, Target::Label("here".into())));
+        p.push(Some("here"), Stmt::Named(0x26, "putn"));
         p.push(None, Stmt::Named(0x25, "halt"));
         v.push((format!("origin{i}-x{o:04x}"), p, false));
     }
